@@ -2327,4 +2327,5 @@ M("t17-external-type-conflict-ignored", "C17", "fire T17", "src/check.rs",
                                 }
                                 _ => {""",
   """                                _ => {""", "a second declared type for the same external value silently replaces the first")
+REVERT("revert-assign-reads-late", "C14", "fire E15", "ddf9a33", "pre-fix tree: the assigned variable is read before index / value are lowered")
 
